@@ -326,11 +326,6 @@ def recheck(binpath, cases):
             c.nontrivial = (ok and (nb >= 20 or nf > 0)) or (c.tag or "").find("-bad") >= 0
 
 
-def matches(c):
-    if c.op.startswith("det"):
-        return (c.impl or "").startswith("same")
-    return c.model == c.impl
-
 
 def shrink(c):
     """drop rows / columns of the FASTA on stdin; drop thread counts"""
